@@ -20,6 +20,10 @@ from ..rules.schema import H5Schema
 
 ID = 'C14'
 
+# the generic data-path rules (sa/rules/closure.py) say nothing about this
+# property (scheduling / failure / scratch / path disclosure)
+GENERIC_SCAN = False
+
 EXPLANATION = (
     "Static analysis (ast -> call graph -> statement CFG with NORMAL/EXC "
     "exits -> reaching definitions -> path effects). For every "
